@@ -15,6 +15,7 @@ use crate::{LexerError, TokenNumber};
 pub struct TokenBuffer<'t> {
     tokens: Vec<Token<'t>>,
     last_token_location: u32,
+    last_token_end_position: (u32, u32),
     last_token_number: TokenNumber,
 }
 
@@ -24,6 +25,7 @@ impl<'t> TokenBuffer<'t> {
         TokenBuffer {
             tokens: Vec::new(),
             last_token_location: 0,
+            last_token_end_position: (1, 1),
             last_token_number: 0,
         }
     }
@@ -34,11 +36,15 @@ impl<'t> TokenBuffer<'t> {
         if self.last_token_location < new_start {
             use crate::lexer::location::Location;
             use crate::lexer::token::INVALID_TOKEN;
+            // The gap starts where the last token ended and ends where the new token starts
             let gap_location = Location {
+                start_line: self.last_token_end_position.0,
+                start_column: self.last_token_end_position.1,
+                end_line: token.location.start_line,
+                end_column: token.location.start_column,
                 start: self.last_token_location,
                 end: new_start,
                 file_name: token.location.file_name.clone(),
-                ..Location::default()
             };
             // Prevent overflow when last token was EOI with MAX token number
             let next_token_number = if self.last_token_number == TokenNumber::MAX {
@@ -57,6 +63,7 @@ impl<'t> TokenBuffer<'t> {
             self.tokens.push(invalid_token);
         }
         self.last_token_location = token.location.end;
+        self.last_token_end_position = (token.location.end_line, token.location.end_column);
         self.last_token_number = token.token_number;
         self.tokens.push(token);
     }
